@@ -625,6 +625,9 @@ network_ssl_read(struct network_ssl_ctx * ssl, uint8_t * buf,
 	return (ssl);
 
 err0:
+	/* The request was not accepted. */
+	ssl->read_callback = NULL;
+
 	/* Failure! */
 	return (NULL);
 }
@@ -698,6 +701,9 @@ network_ssl_write(struct network_ssl_ctx * ssl, const uint8_t * buf,
 	return (ssl);
 
 err0:
+	/* The request was not accepted. */
+	ssl->write_callback = NULL;
+
 	/* Failure! */
 	return (NULL);
 }
